@@ -10,6 +10,7 @@ Oracles: (1) the value (or exception type) equals the Python builtin's on the un
     the return type of the method in the checker's class context) - read from the compiler, not
     transcribed; (3) no Nat / Nat! instance ever holds a negative value.
 """
+import glob
 import json
 import os
 import re
@@ -251,6 +252,8 @@ def key_of(k, kind):
 def run(chk):
     work = os.path.join(vlib.BUILD, "c26")
     os.makedirs(work, exist_ok=True)
+    for f in glob.glob(os.path.join(vlib.REPLAYS, "C26", f"{chk.tier}-*.json")):
+        os.remove(f)  # replays of an earlier run
     erg_path = vlib.stage_erg_path()
     core = os.path.join(erg_path, "lib", "core")
     specs, skipped_methods = method_specs(work)
